@@ -227,6 +227,17 @@ func valueCase(r *core.Run, t *tally, n *node, domain string, keyed, modes bool)
 func run(r *core.Run) {
 	thorough := r.Thorough()
 	p := &pool{}
+	// development aid: VERIF_C12_ONLY=V-symbol,T-tokens-ext runs a subset (reported as capped)
+	only := os.Getenv("VERIF_C12_ONLY")
+	if only != "" {
+		r.Cap("development subset VERIF_C12_ONLY=" + only)
+	}
+	lim := func(name string, n int64) int64 {
+		if only != "" && !strings.Contains(","+only+",", ","+name+",") {
+			return 0
+		}
+		return n
+	}
 	t0 := time.Now()
 	phase := func(name string) {
 		if os.Getenv("VERIF_C12_TRACE") != "" {
@@ -253,7 +264,7 @@ func run(r *core.Run) {
 	// ---------------------------------------------------------------- V-int
 	ints := intAlphabet()
 	r.Bound("V-int.values", len(ints))
-	core.ParallelRange(r, int64(len(ints)), func(int) *valWorker { return &valWorker{p.get()} }, func(w *valWorker, i int64) {
+	core.ParallelRange(r, lim("V-int", int64(len(ints))), func(int) *valWorker { return &valWorker{p.get()} }, func(w *valWorker, i int64) {
 		for q := uint8(0); q <= 2; q += 2 {
 			valueCase(r, w.t, &node{k: kInt, i: ints[i], q: q}, "int", true, true)
 		}
@@ -272,7 +283,7 @@ func run(r *core.Run) {
 	var floatSkipped int64
 	var skMu sync.Mutex
 	floatRun := func(g *floatGrid, keyed bool) {
-		core.ParallelRange(r, g.size(), func(int) *valWorker { return &valWorker{p.get()} }, func(w *valWorker, i int64) {
+		core.ParallelRange(r, lim("V-float", g.size()), func(int) *valWorker { return &valWorker{p.get()} }, func(w *valWorker, i int64) {
 			f, ok := g.at(i)
 			if !ok {
 				skMu.Lock()
@@ -288,7 +299,7 @@ func run(r *core.Run) {
 	floatRun(wide, false)
 	sp := specialFloats()
 	r.Bound("V-float.special", len(sp))
-	core.ParallelRange(r, int64(len(sp)), func(int) *valWorker { return &valWorker{p.get()} }, func(w *valWorker, i int64) {
+	core.ParallelRange(r, lim("V-float", int64(len(sp))), func(int) *valWorker { return &valWorker{p.get()} }, func(w *valWorker, i int64) {
 		for q := uint8(0); q <= 2; q += 2 {
 			valueCase(r, w.t, &node{k: kFloat, f: sp[i], q: q}, "float-"+floatForm(fmtFloat(sp[i])), true, true)
 		}
@@ -304,7 +315,7 @@ func run(r *core.Run) {
 	nstr := seqCount(len(strAlphabet), strLen)
 	r.Bound("V-string.max_len", strLen)
 	r.Bound("V-string.values", nstr)
-	core.ParallelRange(r, nstr, func(int) *valWorker { return &valWorker{p.get()} }, func(w *valWorker, i int64) {
+	core.ParallelRange(r, lim("V-string", nstr), func(int) *valWorker { return &valWorker{p.get()} }, func(w *valWorker, i int64) {
 		s := stringAt(i)
 		valueCase(r, w.t, &node{k: kStr, s: s}, "string-"+stringCat(s), true, true)
 		if i < seqCount(len(strAlphabet), 2) {
@@ -315,52 +326,73 @@ func run(r *core.Run) {
 
 	phase("V-string")
 	// ------------------------------------------------------------- V-symbol
-	symLen := 4
+	symLen, wideLen := 4, 2
 	if thorough {
-		symLen = 5
+		symLen, wideLen = 5, 3
 	}
-	nsym := spellingCount(symLen)
-	r.Bound("V-symbol.max_len", symLen)
-	r.Bound("V-symbol.spellings", nsym)
 	r.Bound("V-symbol.contexts", len(symContexts))
 	var readable, unreadable int64
-	core.ParallelRange(r, nsym, func(int) *seqWorker { return &seqWorker{r: r, t: p.get()} }, func(w *seqWorker, i int64) {
-		s := spellingAt(i)
-		w.t.states++
-		st := w.readOne(s, &seqOpts{domain: "symbol-spelling"})
-		isSym := st.ok && len(st.exprs) == 1 && func() bool { ok, _ := symN(s, 0).same(st.exprs[0]); return ok }()
-		r.Nontrivial("spelling\x00" + s)
-		if !isSym {
-			switch {
-			case !st.ok:
-				w.t.outcomes["symbol-spelling:unreadable-rejected"]++
-			default:
-				w.t.outcomes["symbol-spelling:unreadable-reads-as-something-else"]++
+	symbolRun := func(name string, alpha []string, maxLen int) {
+		nsym := spellingCountOver(alpha, maxLen)
+		r.Bound("V-symbol."+name+".alphabet", strings.Join(alpha, " "))
+		r.Bound("V-symbol."+name+".max_len", maxLen)
+		r.Bound("V-symbol."+name+".spellings", nsym)
+		core.ParallelRange(r, lim("V-symbol", nsym), func(int) *seqWorker { return &seqWorker{r: r, t: p.get()} }, func(w *seqWorker, i int64) {
+			s := spellingOver(alpha, i)
+			w.t.states++
+			st := w.readOne(s, &seqOpts{domain: "symbol-spelling"})
+			isSym := st.ok && len(st.exprs) == 1 && func() bool { ok, _ := symN(s, 0).same(st.exprs[0]); return ok }()
+			r.Nontrivial("spelling\x00" + s)
+			if !isSym {
+				switch {
+				case !st.ok:
+					w.t.outcomes["symbol-spelling:unreadable-rejected"]++
+				default:
+					w.t.outcomes["symbol-spelling:unreadable-reads-as-something-else"]++
+				}
+				skMu.Lock()
+				unreadable++
+				skMu.Unlock()
+				return
 			}
 			skMu.Lock()
-			unreadable++
+			readable++
 			skMu.Unlock()
-			return
-		}
-		skMu.Lock()
-		readable++
-		skMu.Unlock()
-		w.t.outcomes["symbol-spelling:readable"]++
-		// a readable symbol is a value: full value round trip, alone and nested/quoted
-		valueCase(r, w.t, symN(s, 0), "symbol", false, true)
-		valueCase(r, w.t, listN(2, symN(s, 3), listN(0, symN(s, 1))), "symbol-nested", false, true)
-		for ci := range symContexts {
-			c := &symContexts[ci]
-			toks := c.toks(s)
-			lv := lvSingles
-			if len(toks) <= 3 {
-				lv = lvProduct
+			w.t.outcomes["symbol-spelling:readable"]++
+			// a readable symbol is a value: full value round trip, alone and nested/quoted
+			valueCase(r, w.t, symN(s, 0), "symbol", false, true)
+			valueCase(r, w.t, listN(2, symN(s, 3), listN(0, symN(s, 1))), "symbol-nested", false, true)
+			for ci := range symContexts {
+				c := &symContexts[ci]
+				toks := c.toks(s)
+				lv := lvSingles
+				if len(toks) <= 3 {
+					lv = lvProduct
+				}
+				w.process(toks, &seqOpts{level: lv, frames: true, expect: c.expect(s), domain: "symctx:" + c.id, symbol: shape(s), symText: s})
 			}
-			w.process(toks, &seqOpts{level: lv, frames: true, expect: c.expect(s), domain: "symctx:" + c.id, symbol: shape(s), symText: s})
-		}
-	})
+		})
+	}
+	symbolRun("small", symAlphabet, symLen)
+	symbolRun("wide", symAlphabetWide, wideLen)
 	extra["symbol_spellings_readable"] = readable
 	extra["symbol_spellings_unreadable"] = unreadable
+
+	// keywords, booleans and () as values: every quote level, alone and inside lists
+	atomTable := []*node{symN("true", 0), symN("false", 0), symN(":k", 0), symN(":1", 0), symN(":true", 0), symN("nil", 0), listN(0)}
+	r.Bound("V-atoms", describeAll(atomTable))
+	for _, a := range atomTable {
+		for q := uint8(0); q <= 3; q++ {
+			w := &valWorker{p.get()}
+			c := *a
+			c.q = q
+			valueCase(r, w.t, &c, "atom", true, true)
+			for lq := uint8(0); lq <= 2; lq++ {
+				c1, c2 := c, c
+				valueCase(r, w.t, listN(lq, &c1, listN(1, &c2)), "atom-in-list", true, true)
+			}
+		}
+	}
 
 	phase("V-symbol")
 	// --------------------------------------------------------------- V-tree
@@ -374,11 +406,12 @@ func run(r *core.Run) {
 	r.Bound("V-tree.quote_levels", "0..3 at every node")
 	r.Bound("V-tree.leaf_atoms", describeAll(atoms))
 	r.Bound("V-tree.trees", ts.n[3])
-	core.ParallelRange(r, ts.n[3], func(int) *valWorker { return &valWorker{p.get()} }, func(w *valWorker, i int64) {
+	r.Bound("V-tree.three_readers_up_to_depth", 2)
+	core.ParallelRange(r, lim("V-tree", ts.n[3]), func(int) *valWorker { return &valWorker{p.get()} }, func(w *valWorker, i int64) {
 		n := ts.at(3, i)
 		// the trees of depth <= 2 are exactly those whose list children are leaves; key them only
 		shallow := depthOf(n) <= 2
-		valueCase(r, w.t, n, fmt.Sprintf("tree-q%d", n.maxQ()), shallow, shallow || thorough)
+		valueCase(r, w.t, n, fmt.Sprintf("tree-q%d", n.maxQ()), shallow, shallow)
 	})
 
 	phase("V-tree")
@@ -409,7 +442,7 @@ func run(r *core.Run) {
 			break
 		}
 		n := n
-		core.ParallelRange(r, pow(T, n), func(int) *seqWorker { return &seqWorker{r: r, t: p.get()} }, func(w *seqWorker, i int64) {
+		core.ParallelRange(r, lim("T-tokens", pow(T, n)), func(int) *seqWorker { return &seqWorker{r: r, t: p.get()} }, func(w *seqWorker, i int64) {
 			lv := lvUniform
 			switch {
 			case n <= fullLen:
@@ -422,6 +455,30 @@ func run(r *core.Run) {
 				nvar = 2 // compact and comment
 			}
 			w.process(w.seqTokens(n, i), &seqOpts{level: lv, frames: n <= singlesLen, domain: "tokens", nontriv: n <= 4, nvar: nvar})
+		})
+	}
+
+	extLen := 2
+	if thorough {
+		extLen = 3
+	}
+	r.Bound("T-tokens-ext.alphabet_size", len(tokAlphabetExt))
+	r.Bound("T-tokens-ext.extra_tokens", []string{"#xF", "#o7", "1", "\"u\\n", "#", "\\x80", "1."})
+	r.Bound("T-tokens-ext.max_len", extLen)
+	for n := 1; n <= extLen; n++ {
+		n := n
+		core.ParallelRange(r, lim("T-tokens-ext", pow(len(tokAlphabetExt), n)), func(int) *seqWorker { return &seqWorker{r: r, t: p.get()} }, func(w *seqWorker, i int64) {
+			toks := w.seqTokensOver(tokAlphabetExt, n, i)
+			ext := false
+			for _, d := range w.digit[:n] {
+				if d >= len(tokAlphabet) {
+					ext = true
+				}
+			}
+			if !ext {
+				return // already explored over the base alphabet
+			}
+			w.process(toks, &seqOpts{level: lvProduct, frames: true, domain: "tokens-ext", nontriv: true})
 		})
 	}
 
@@ -455,7 +512,7 @@ func run(r *core.Run) {
 	r.Bound("T-bound.cases", len(bcs))
 	r.Bound("T-bound.item_kinds", len(placeItems))
 	r.Bound("T-bound.overlong_lengths", lens)
-	core.ParallelRange(r, int64(len(bcs)), func(int) *valWorker { return &valWorker{p.get()} }, func(w *valWorker, i int64) {
+	core.ParallelRange(r, lim("T-bound", int64(len(bcs))), func(int) *valWorker { return &valWorker{p.get()} }, func(w *valWorker, i int64) {
 		c := bcs[i]
 		out, f := checkBoundary(c)
 		w.t.states++
@@ -494,7 +551,7 @@ func run(r *core.Run) {
 	for n := 1; n <= prodTok; n++ {
 		n := n
 		prodTexts += pow(T, n)
-		core.ParallelRange(r, pow(T, n), func(int) *seqWorker { return &seqWorker{r: r, t: p.get()} }, func(w *seqWorker, i int64) {
+		core.ParallelRange(r, lim("T-prod", pow(T, n)), func(int) *seqWorker { return &seqWorker{r: r, t: p.get()} }, func(w *seqWorker, i int64) {
 			toks := w.seqTokens(n, i)
 			gaps := make([]int, n)
 			for g := 0; g < n-1; g++ {
@@ -509,19 +566,19 @@ func run(r *core.Run) {
 	}
 	np := seqCount(len(strAlphabet), prodStr)
 	prodTexts += np
-	core.ParallelRange(r, np, func(int) *valWorker { return &valWorker{p.get()} }, func(w *valWorker, i int64) {
+	core.ParallelRange(r, lim("T-prod", np), func(int) *valWorker { return &valWorker{p.get()} }, func(w *valWorker, i int64) {
 		n := &node{k: kStr, s: stringAt(i)}
 		prodOne(w.t, n.build().String())
 	})
 	if thorough {
 		nps := spellingCount(4)
 		prodTexts += nps
-		core.ParallelRange(r, nps, func(int) *valWorker { return &valWorker{p.get()} }, func(w *valWorker, i int64) {
+		core.ParallelRange(r, lim("T-prod", nps), func(int) *valWorker { return &valWorker{p.get()} }, func(w *valWorker, i int64) {
 			prodOne(w.t, "("+spellingAt(i)+")")
 		})
 		g3 := newGrid(999, -25, 27)
 		prodTexts += g3.size() / 3
-		core.ParallelRange(r, g3.size()/3, func(int) *valWorker { return &valWorker{p.get()} }, func(w *valWorker, i int64) {
+		core.ParallelRange(r, lim("T-prod", g3.size()/3), func(int) *valWorker { return &valWorker{p.get()} }, func(w *valWorker, i int64) {
 			if f, ok := g3.at(i * 3); ok {
 				prodOne(w.t, fmtFloat(f))
 			}
@@ -554,17 +611,9 @@ func run(r *core.Run) {
 		text, f := checkValue(n, true)
 		r.Sample(map[string]any{"value": n.describe(), "printed": text, "ok": f == nil})
 	}
-	w := &seqWorker{r: r, t: newTally()}
-	for _, i := range []int64{pow(T, 4) / 3, 4*pow(T, 3) + 8*pow(T, 2) + 15*int64(T) + 1} {
-		toks := w.seqTokens(4, i)
-		gaps := []int{refSep, refSep, refSep, 0}
-		for g := 0; g < 3; g++ {
-			if toks[g].kind == tPrefix {
-				gaps[g] = 0
-			}
-		}
-		text := string(render(nil, toks, gaps, "", ""))
-		r.Sample(map[string]any{"token_text": text, "strict": short(readStrict(text).String())})
+	for _, text := range []string{"( 'a -1 )", "[--(\"s\\n\" ;c\n)]", "#!h\n#^[a]"} {
+		s, mf := modesAgree(text)
+		r.Sample(map[string]any{"token_text": text, "strict": short(s.String()), "readers_agree": mf == nil})
 	}
 }
 
